@@ -153,6 +153,11 @@ class Core : public ResultCoreT<Type, Ret, E>, public FuncCore<Func> {
       return Done<SymmetricTransfer, true>(core.template MoveOrConst<!AsyncShared>());
     };
     if constexpr (IsRun(Type)) {
+      if (this->_self.caller == nullptr) {
+        // Head of a lazy chain (Schedule) started by another step or coroutine, not the end of our own async
+        this->_executor->Submit(*this);
+        return Noop<SymmetricTransfer>();
+      }
       return async_done();
     } else {
       if constexpr (kAsync != AsyncType::None) {
